@@ -293,7 +293,7 @@ func mutateDeep(r *rand.Rand, v any, o genOpts, depth int) any {
 func init() {
 	register(&Prop{
 		ID:   "C04",
-		Rule: "kinds: merge (pairs (A,B): B derived from A by 1-4 mutations at any depth — kind flips, nulls, list truncation/extension, lists of containers/lists — or independent; both list strategies; inputs snapshotted before/after, identities and idempotence as Go-side oracles), overlay-merged (2-3 layers through OverlayDocument.Merged), fluent (ConfigHelper Add..Load(file).Result()). Non-trivial: pair has a kind conflict or unequal-length lists. Distinct by Gallina term. ConfigHelper sources are plain maps, builders and sealed views in turn. The same A is merged a second time with another B and the first result re-read; Result() is looked at in the middle of every second ConfigHelper chain. A ConfigHelper that was only Mutate()d is created (and dropped) before the one under test.",
+		Rule: "kinds: merge (pairs (A,B): B derived from A by 1-4 mutations at any depth — kind flips, nulls, list truncation/extension, lists of containers/lists — or independent; both list strategies; inputs snapshotted before/after, identities and idempotence as Go-side oracles), overlay-merged (2-3 layers through OverlayDocument.Merged), fluent (ConfigHelper Add..Load(file).Result()). Non-trivial: pair has a kind conflict or unequal-length lists. Distinct by Gallina term. ConfigHelper sources are plain maps, builders and sealed views in turn. The same A is merged a second time with another B and the first result re-read; Result() is looked at in the middle of every second ConfigHelper chain. A ConfigHelper that was only Mutate()d is created (and dropped) before the one under test. Corpus: 150 mappings side by side (in a mapping and in a list); a ConfigHelper whose Result() is read after the first source while a key goes section -> scalar -> section.",
 		Corpus: func() []Case {
 			return []Case{
 				c04Merge(nil, map[string]any{"a": 1}, map[string]any{"a": nil, "b": nil}, false),
